@@ -187,17 +187,29 @@ def gen_replace(tree, out):
     expect_same(iff.body[1], 'return col')
     expect_same(b[2], 'import numpy as np')
     l1 = _for(b[3], '(old, new)', 'mappings.items()', 3)
-    # the NumPy branch: which cells are overwritten.  np.isnan(<array>) and <array> == old are element-wise
-    # (modelled per cell); the choice between them is translated.
+    # the NumPy branch: which cells are overwritten.  `if <key is a float NaN>: b = np.isnan(seq) else: b = seq == old`;
+    # np.isnan(<array>) and <array> == old are element-wise (modelled per cell); the test on the key and the choice
+    # between the two masks are translated.
     st = l1[0]
-    if not (isinstance(st, ast.Assign) and len(st.targets) == 1 and ast.unparse(st.targets[0]) == 'b'):
-        raise TranslationError('replace: mask statement changed: `%s`' % ast.unparse(st))
-    env = Env([('np.isnan(old)', 'old_is_nan', 'bool'), ('np.isnan(col._seq)', 'cell_is_nan', 'bool'),
+    if not (isinstance(st, ast.If) and len(st.body) == 1 and len(st.orelse) == 1):
+        raise TranslationError('replace: mask statement changed: `%s`' % ast.unparse(st).split('\n')[0])
+    env = Env([('isinstance(old, float)', 'old_is_float', 'bool'), ('old != old', 'old_ne_itself', 'bool'),
+               ('old == old', '(negb old_ne_itself)', 'bool')])
+    out.append('(* replace, NumPy branch: is the key treated as NaN?  old_is_float = isinstance(old, float), '
+               'old_ne_itself = (old != old) *)\n'
+               'Definition k_replace_nan_key (old_is_float old_ne_itself : bool) : bool := %s.\n'
+               % tr_typed(st.test, env, 'bool'))
+    env = Env([('np.isnan(col._seq)', 'cell_is_nan', 'bool'),
                ('col._seq == old', 'cell_eq_old', 'bool'), ('old == col._seq', 'cell_eq_old', 'bool')])
-    out.append('(* replace, NumPy branch: is a cell overwritten?  old_is_nan = np.isnan(old), per cell: cell_is_nan = '
+    branches = []
+    for br in (st.body[0], st.orelse[0]):
+        if not (isinstance(br, ast.Assign) and len(br.targets) == 1 and ast.unparse(br.targets[0]) == 'b'):
+            raise TranslationError('replace: mask assignment changed: `%s`' % ast.unparse(br))
+        branches.append(tr_typed(br.value, env, 'bool'))
+    out.append('(* replace, NumPy branch: is a cell overwritten?  nan_key = the test above, per cell: cell_is_nan = '
                'np.isnan(cell), cell_eq_old = (cell == old) *)\n'
-               'Definition k_replace_mask (old_is_nan cell_is_nan cell_eq_old : bool) : bool := %s.\n'
-               % tr_typed(st.value, env, 'bool'))
+               'Definition k_replace_mask (nan_key cell_is_nan cell_eq_old : bool) : bool := '
+               '(if nan_key then %s else %s).\n' % tuple(branches))
     expect_same(l1[1], 'i = np.where(b)')
     expect_same(l1[2], 'col._seq[i] = new')
     expect_same(b[4], 'return col')
@@ -460,7 +472,9 @@ def gen_weight(tree, out):
     out.append('(* weight: length of the allocated result, as a function of int(col.sum) *)\n'
                'Definition k_weight_len (total : Z) : Z := %s.\n' % tr_typed(a.value.keywords[0].value, env, 'Z'))
     body = _for(b[3], '(colname, _col)', 'dm1.columns', 1)
-    expect_same(body[0], 'dm2[colname] = type(_col)')
+    # a series column is re-created with its depth, every other column by its type (pinned)
+    expect_same(body[0], 'if isinstance(_col, _SeriesColumn):\n    dm2[colname] = SeriesColumn(depth=_col.depth)\n'
+                         'else:\n    dm2[colname] = type(_col)')
     expect_same(b[4], 'i2 = 0')
     l1 = _for(b[5], '(i1, weight)', 'enumerate(col)', 1)
     l2 = _for(l1[0], 'c', None, 2)
